@@ -240,12 +240,15 @@ func (r *Recorder) Flush() {
 	}
 	b, err := json.Marshal(f)
 	if err != nil {
+		fmt.Fprintf(os.Stderr, "verifkit: evidence fragment of %s/%s not written: %v\n", r.prop, r.name, err)
 		return
 	}
 	_ = os.MkdirAll(dir, 0o755)
 	name := strings.NewReplacer("/", "_", " ", "_").Replace(r.name)
 	fn := filepath.Join(dir, fmt.Sprintf("%s.%s.%d.%d.json", r.prop, name, os.Getpid(), time.Now().UnixNano()))
-	_ = os.WriteFile(fn, b, 0o644)
+	if err := os.WriteFile(fn, b, 0o644); err != nil {
+		fmt.Fprintf(os.Stderr, "verifkit: evidence fragment %s not written: %v\n", fn, err)
+	}
 }
 
 // ---------------------------------------------------------------------------
